@@ -16,7 +16,7 @@ use vcommon::{
     ev::{hash_of, truncate, verif_root, Ctx, Report, Stats, Tier, Violation},
 };
 
-pub const RULE: &str = "corpus = N generated proxy traits (quick 80, thorough 600), each with 1..5 \
+pub const RULE: &str = "corpus = N generated proxy traits (quick 120, thorough 600), each with 1..5 \
 methods: names of 1..4 words incl. digit words and raw identifiers, optional rename, 0..4 \
 parameters over {i32, u64, bool, f64, &str, String, Option<&str>, Option<i32>, Option<String>, \
 Option<Vec<i64>>, &[i64], &[&str], Vec<String>, &St, generic T: Serialize + Debug (inline bound or \
@@ -536,7 +536,7 @@ fn sig_of_compile_error(msg: &str) -> String {
 
 pub fn run(ctx: &Ctx) -> i32 {
     let ks = kinds();
-    let n = ctx.tier.pick(80usize, 600);
+    let n = ctx.tier.pick(120usize, 600);
     let mut rng = Rng::new(ctx.subseed("corpus", 0));
     let traits: Vec<Trait> = (0..n).map(|i| gen_trait(i, &mut rng, &ks)).collect();
     let modules: BTreeMap<usize, String> = traits.iter().map(|t| (t.idx, render_trait(t, &ks))).collect();
